@@ -12,6 +12,13 @@ import (
 // values a run needs (DESIGN.md appendix H). mutate may override anything before
 // GenerateCrawlConfig derives JobPath etc.
 func InitConfig(job string, mutate func(c *config.Config)) *config.Config {
+	c := InitConfigOnly(job, mutate)
+	stats.Init()
+	return c
+}
+
+// InitConfigOnly is InitConfig without initialising the stats package (controler.Start does that itself).
+func InitConfigOnly(job string, mutate func(c *config.Config)) *config.Config {
 	os.Setenv("HOME", os.TempDir()) // no user config file
 	if err := config.InitConfig(); err != nil {
 		panic(err)
@@ -45,6 +52,5 @@ func InitConfig(job string, mutate func(c *config.Config)) *config.Config {
 	if err := config.GenerateCrawlConfig(); err != nil {
 		panic(err)
 	}
-	stats.Init()
 	return c
 }
